@@ -2,16 +2,18 @@
 // labels: peers.register.* peers.get.* store.remove_replica.peers-gone
 // tier: quick
 // bound: one persistent store, two documents, peers out of 7 ids; every sequence of up to 4 steps (thorough tier: 5) over {register peer p for document A
-// (p in 1..=7 cycling), register the next peer for document B, reopen the store (flush, drop, open the file again after 2 ms), remove and re-create document B}
+// (p in 1..=7 cycling), register the next peer for document B, reopen the store (flush, drop, open the file again after 2 ms), reopen it without
+// flushing first (a dropped store commits what is pending), remove and re-create document B}
 // followed by two closing registrations for A; after every step get_sync_peers of both documents is compared with the model of C17: at most five
 // distinct peers per document, most recently registered first, re-registration moves to the front, documents independent, the list survives
-// reopening, a removed document has no peers and starts empty when re-created, registering for an unknown document fails.
+// reopening, a removed document has no peers and starts empty when re-created, registering for an unknown document fails. Through the store actor:
+// every open/closed pattern over six registrations (64 x 6): accepted either way, listed once the document is open.
 #[cfg(all(test, feature = "fs-store"))]
 mod verif_rp_c17_peers {
     use super::*;
 
     #[derive(Clone, Copy, Debug, PartialEq, Eq)]
-    enum Step { RegA(u8), RegB, Reopen, RecreateB }
+    enum Step { RegA(u8), RegB, Reopen, ReopenWithoutFlush, RecreateB }
 
     fn model_register(list: &mut Vec<u8>, p: u8) { list.retain(|x| *x != p); list.insert(0, p); list.truncate(5); }
     fn got(store: &mut Store, ns: &NamespaceId) -> Vec<u8> { store.get_sync_peers(ns).unwrap().map(|it| it.map(|p| p[0]).collect()).unwrap_or_default() }
@@ -33,6 +35,8 @@ mod verif_rp_c17_peers {
                 Step::RegA(p) => { store.register_useful_peer(doc_a.id(), [*p; 32]).unwrap(); model_register(&mut a, *p); }
                 Step::RegB => { next_b += 1; store.register_useful_peer(doc_b.id(), [next_b; 32]).unwrap(); model_register(&mut b, next_b); }
                 Step::Reopen => { store.flush().unwrap(); drop(store); std::thread::sleep(std::time::Duration::from_millis(2)); store = Store::persistent(&path).unwrap(); }
+                // a store that is dropped commits what is pending (`impl Drop for Store`): the registrations since the last flush must not be lost
+                Step::ReopenWithoutFlush => { drop(store); std::thread::sleep(std::time::Duration::from_millis(2)); store = Store::persistent(&path).unwrap(); }
                 Step::RecreateB => {
                     store.remove_replica(&doc_b.id()).unwrap();
                     assert_eq!(got(&mut store, &doc_b.id()), Vec::<u8>::new(), "WITNESS a removed document still reports useful peers (step {i} of {all:?})");
@@ -66,11 +70,43 @@ mod verif_rp_c17_peers {
         let mut n = 0usize;
         for d in 0..depth {
             let mut next = vec![];
-            for s in &layer { for st in [Step::RegA((d as u8 * 2 + s.len() as u8) % 7 + 1), Step::RegA(1), Step::RegB, Step::Reopen, Step::RecreateB] { let mut t = s.clone(); t.push(st); next.push(t); } }
+            for s in &layer { for st in [Step::RegA((d as u8 * 2 + s.len() as u8) % 7 + 1), Step::RegA(1), Step::RegB, Step::Reopen, Step::ReopenWithoutFlush, Step::RecreateB] { let mut t = s.clone(); t.push(st); next.push(t); } }
             layer = next;
         }
         // prefix of five registrations so that eviction is in play
         for s in &layer { let mut full: Vec<Step> = (1u8..=4).map(Step::RegA).collect(); full.push(Step::RegB); full.push(Step::RegB); full.extend(s.iter().cloned()); run(&full, &doc_a, &doc_b); n += 1; }
         println!("c17_peers: {n} histories");
+    }
+
+    /// through the store actor (the path the live engine uses): a registration is accepted for a known document whether or not it is open at
+    /// that moment (a sync can finish after the document was closed), and is part of the list once the document is opened again
+    #[tokio::test]
+    async fn registrations_through_the_actor_do_not_depend_on_the_document_being_open() {
+        use crate::actor::{OpenOpts, SyncHandle};
+        let mut rng = rand::rng();
+        let doc = NamespaceSecret::new(&mut rng);
+        let unknown = NamespaceSecret::new(&mut rng);
+        let handle = SyncHandle::spawn(Store::memory(), None, "c17".to_string());
+        let ns = handle.import_namespace(Capability::Write(doc.clone())).await.unwrap();
+        let mut model: Vec<u8> = vec![];
+        let mut p = 0u8;
+        // every pattern of open/closed over six registrations
+        for pattern in 0u32..64 {
+            for step in 0..6 {
+                let want_open = pattern >> step & 1 == 1;
+                if want_open { handle.open(ns, OpenOpts::default()).await.unwrap(); }
+                tokio::time::sleep(std::time::Duration::from_micros(50)).await;
+                p = p % 7 + 1;
+                let res = handle.register_useful_peer(ns, [p; 32]).await;
+                assert!(res.is_ok(), "WITNESS registering a useful peer for a known document that is {} fails: {res:?}", if want_open { "open" } else { "closed" });
+                model_register(&mut model, p);
+                if !want_open { handle.open(ns, OpenOpts::default()).await.unwrap(); }
+                let got: Vec<u8> = handle.get_sync_peers(ns).await.unwrap().map(|v| v.iter().map(|x| x[0]).collect()).unwrap_or_default();
+                assert_eq!(got, model, "WITNESS useful peers reported by the actor after registering while the document was {}", if want_open { "open" } else { "closed" });
+                handle.close(ns).await.unwrap();
+            }
+        }
+        assert!(handle.register_useful_peer(unknown.id(), [1u8; 32]).await.is_err(), "WITNESS the actor accepts a useful peer for an unknown document");
+        handle.shutdown().await.unwrap();
     }
 }
